@@ -128,15 +128,21 @@ Init ==
   /\ wprev = NoTick /\ rcur = NoTick /\ wlog = <<>> /\ rlog = <<>> /\ warns = {} /\ n = 0
   /\ act = [a |-> "init"] /\ out = [r |-> "init"]
 
-\* a = [a |-> "new", nv, mn, ts : string lengths, kind, sha : BOOLEAN, map : length, crc, length]
+\* a = [a |-> "new", nv, mn, ts : string lengths, kind, sha : BOOLEAN, map : length, crc, length, src, mode]
+\* src: how the bytes travel between the library and the file (0 in one piece; 1 one byte per read / write call;
+\* 2 half of what is asked for; 3 all but the last byte; 4 / 6 buffered reader / writer with a 16- / 1-byte buffer;
+\* 5 pseudo-random counts; a count of zero only at the end of the file).  mode: how the driver picks the writer's
+\* entry points (see `via` below; 0 dedicated functions, 1 write_chunk, 2 alternating, 3 free).  Neither changes
+\* anything of what must be written and played back: the specification does not look at them -- that is the law
+\* (the file and the playback depend on the chunks only, not on how the bytes are delivered nor on the entry point).
 HeaderOk(a) == a.nv \in 0..63 /\ a.mn \in 0..63 /\ a.ts \in 0..19 /\ a.map >= 0 /\ a.length >= 0
-               /\ a.kind \in {"client", "server"}
+               /\ a.kind \in {"client", "server"} /\ a.src \in 0..6 /\ a.mode \in 0..3
 DataOffset(a) == 8 + 168 + 260 + (IF a.sha THEN 48 ELSE 0) + a.map
 New(a) ==
   /\ HeaderOk(a)                      \* a new recording may start at any time
   /\ phase' = "open"
   /\ hdr' = [nv |-> a.nv, mn |-> a.mn, ts |-> a.ts, kind |-> a.kind, sha |-> a.sha, map |-> a.map,
-             crc |-> a.crc, length |-> a.length]
+             crc |-> a.crc, length |-> a.length, src |-> a.src, mode |-> a.mode]
   /\ rhdr' = hdr'                      \* the reader reports the fields as given
   /\ out' = [r |-> "ok", version |-> IF a.sha THEN 6 ELSE 5, dataoff |-> DataOffset(a), same |-> TRUE, w |-> {}]
   /\ wprev' = NoTick /\ rcur' = NoTick /\ wlog' = <<>> /\ rlog' = <<>> /\ warns' = {} /\ n' = 0
@@ -152,17 +158,20 @@ Emit(a, seg, wchunk) ==
   /\ n' = n + 1 /\ act' = a
   /\ UNCHANGED <<phase, hdr, rhdr>>
 
-\* a = [a |-> "tick", t, kf]   (Writer::write_tick asserts t > previous tick: caller's obligation)
+\* a = [a |-> "tick", t, kf, via]   (Writer::write_tick asserts t > previous tick: caller's obligation)
+\* via: the entry point of the writer -- "fn" the dedicated function (write_tick, write_snapshot, write_snapshot_delta,
+\* write_message), "chunk" the generic write_chunk with the corresponding RawChunk variant
+Vias == {"fn", "chunk"}
 WriteTick(a) ==
-  /\ phase = "open"
+  /\ phase = "open" /\ a.via \in Vias
   /\ wprev.has => a.t > wprev.t
   /\ wprev' = Some(a.t)
   /\ Emit(a, [h |-> TickHdr(wprev, a.t, a.kf), body |-> 0, id |-> 0, m4 |-> 0],
           [k |-> "tick", t |-> a.t, kf |-> a.kf])
 
-\* a = [a |-> "data", kind, id, csize, m4, w]  (m4: message length mod 4, 0 for snapshots; w: see above)
+\* a = [a |-> "data", kind, id, csize, m4, w, via]  (m4: message length mod 4, 0 for snapshots; w: see above)
 WriteData(a) ==
-  /\ phase = "open"
+  /\ phase = "open" /\ a.via \in Vias
   /\ a.kind \in {"snapshot", "delta", "message"} /\ a.csize \in 0..65535 /\ a.m4 \in 0..3
   /\ a.w \in 0..15 /\ (a.w > 0 => a.kind = "message")
   /\ Emit(a, [h |-> DataHdr(a.kind, a.csize), body |-> a.csize, id |-> a.id, m4 |-> a.m4],
